@@ -91,6 +91,13 @@ CLAIMS = {
              'outboxes, exactly-once), rooms() and container hygiene are compared with a set-based model. Covers '
              'histories of any length over that universe as far as observations depend on the state only.',
         ref='5 C03', technique='symbolic execution (CrossHair+z3): one inductive step from every bounded room state'),
+    'C04': dict(
+        text='Bounded symbolic execution of the real connect/disconnect paths of Server and AsyncServer against a '
+             'reference lifecycle: all histories of 2 (thorough 3) operations over 2 transports x 3 namespaces with every '
+             'connect-handler behaviour (accept, False, ConnectionRefusedError with 0..3 arguments, symbolic payloads), '
+             'always_connect, implied/listed/"*" namespaces, function and class-based handlers; for the asyncio server '
+             'every schedule of concurrent terminating causes with suspension in every send and in the handler.',
+        ref='5 C04', technique='symbolic execution (CrossHair+z3) over bounded histories; solver-enumerated asyncio schedules'),
 }
 
 PENDING = 'check not built yet in this tree (work in progress); no claim is made'
